@@ -3,7 +3,7 @@
    that explicit get_resource_nowait / get_resource calls perform.  Used by C19.  Definitions only. *)
 From Coq Require Import String.
 From Coq Require Import List Bool Arith.
-From Asphalt Require Import Ctx.ResModel.
+From Asphalt Require Import Ctx.ResModel Gen.Gen_inject.
 Import ListNotations.
 Open Scope string_scope.
 Open Scope list_scope.
@@ -63,10 +63,16 @@ Inductive iout :=
 Definition bad_union (d : dep) : bool := match d with Dep _ ABadUnion => true | _ => false end.
 
 (* the action an explicit lookup of this dependency performs *)
+(* which lookup, and with which `optional` flag, is read from resolve_resources / resolve_resources_async on
+   this run (Gen/Gen_inject.v) *)
 Definition lookup_action (is_coro : bool) (tok : nat) (d : dep) : action :=
   match d with
-  | Dep name (AOpt t) => if is_coro then AGetBegin tok t name true else AGetNowait t name true
-  | Dep name (ATy t) => if is_coro then AGetBegin tok t name false else AGetNowait t name false
+  | Dep name (AOpt t) =>
+      if is_coro && inj_async_awaits_get_resource then AGetBegin tok t name inj_async_optional_flag
+      else AGetNowait t name (if is_coro then inj_async_optional_flag else inj_sync_optional_flag)
+  | Dep name (ATy t) =>
+      if is_coro && inj_async_awaits_get_resource then AGetBegin tok t name inj_async_mandatory_flag
+      else AGetNowait t name (if is_coro then inj_async_mandatory_flag else inj_sync_mandatory_flag)
   | Dep name _ => AGetNowait 0 name false   (* unreachable: rejected earlier *)
   end.
 
